@@ -127,12 +127,13 @@ Qed.
 Section AddTall.
   Variable P : wnode -> Prop.
   Variable okw : option Q -> Prop.
+  Variable d : Z.
   Hypothesis P_new : forall h, P (wn_new h).
-  Hypothesis P_here : forall s lf w ch d x, okw x -> P (WNode s lf w ch) -> P (WNode s true (wm_add w d x) ch).
+  Hypothesis P_here : forall s lf w ch x, okw x -> P (WNode s lf w ch) -> P (WNode s true (wm_add w d x) ch).
   Hypothesis P_below : forall s lf w ch h f,
     (forall c, wn_seg (f c) = wn_seg c) -> P (WNode s lf w ch) -> P (WNode s lf w (wchildren_upd h f ch)).
 
-  Lemma wn_add_tall ss d x : okw x -> forall n, tall P n -> tall P (wn_add ss d x n).
+  Lemma wn_add_tall ss x : okw x -> forall n, tall P n -> tall P (wn_add ss d x n).
   Proof.
     intros Hx. induction ss as [|h tl IH]; intros [s lf w ch] Ht; apply tall_unfold in Ht; destruct Ht as [Hp Hc];
       cbn [wn_add wn_seg wn_leaf wn_weights wn_children]; apply tall_unfold.
@@ -146,7 +147,7 @@ Lemma wn_add_sorted ss d x n : tsorted n -> tsorted (wn_add ss d x n).
 Proof.
   apply (wn_add_tall _ (fun _ => True)); [| | |exact I].
   - intros h. constructor.
-  - intros s lf w ch d0 x0 _ H. exact H.
+  - intros s lf w ch x0 _ H. exact H.
   - intros s lf w ch h f Hf H. cbn [wn_children] in *. apply wchildren_upd_sorted; assumption.
 Qed.
 
@@ -154,7 +155,7 @@ Lemma wn_add_asc ss d x n : tascw n -> tascw (wn_add ss d x n).
 Proof.
   apply (wn_add_tall _ (fun _ => True)); [| | |exact I].
   - intros h. exact I.
-  - intros s lf w ch d0 x0 _ H. cbn [wn_weights] in *. apply wm_add_asc. exact H.
+  - intros s lf w ch x0 _ H. cbn [wn_weights] in *. apply wm_add_asc. exact H.
   - intros s lf w ch h f Hf H. exact H.
 Qed.
 
